@@ -108,20 +108,20 @@ func (m *cuckooMem) Exec(op Tok) (opOut Tok, obs Tok) {
 		}
 		opOut = TL(a[0], a[1], a[2], a[3], TBool(coin), TListU(draws))
 		rand.Seed(seed)
-		ok := f.Insert(a[2].B, a[3].U() != 0)
+		ok := f.Insert(el(a[2].B), a[3].U() != 0)
 		return opOut, TL(TOk(TBool(ok)), TBool(evict))
 	case ckLookup:
 		f := m.inst[a[1].I()]
 		if f == nil {
 			return opOut, TL(TNu(9))
 		}
-		return opOut, TOk(TBool(f.Lookup(a[2].B)))
+		return opOut, TOk(TBool(f.Lookup(el(a[2].B))))
 	case ckRemove:
 		f := m.inst[a[1].I()]
 		if f == nil {
 			return opOut, TL(TNu(9))
 		}
-		return opOut, TOk(TBool(f.Remove(a[2].B)))
+		return opOut, TOk(TBool(f.Remove(el(a[2].B))))
 	case ckLength:
 		f := m.inst[a[1].I()]
 		if f == nil {
